@@ -6,7 +6,7 @@ import re
 import sys
 import time
 
-from . import gen, runner
+from . import gen, runner, kanirun
 from .props import PROPS
 
 VERIF = gen.VERIF
@@ -89,6 +89,35 @@ def check(pid, tier='quick', seed=0):
             trusted.add('axiom: ' + name)
         if r.verified + r.errors == 0 and not r.undecided:
             undecided.append('%s: verus generated zero obligations' % u)
+    # ---- Kani leaves (real crate, loop-free / fully unwound harnesses)
+    kani_cfg = [k for k in prop.get('kani', []) if tier == 'thorough' or k.get('quick', True)]
+    kani_res = {}
+    kani_cmd = ''
+    kani_records = []
+    if kani_cfg:
+        kani_res, kani_cmd = kanirun.run_harnesses([k['harness'] for k in kani_cfg], unwind=prop.get('kani_unwind', 12))
+        cmds.append(kani_cmd)
+        for k in kani_cfg:
+            kr = kani_res[k['harness']]
+            rec = {'harness': k['harness'], 'status': kr['status'], 'cbmc_checks': kr['checks'], 'seconds': kr['seconds'],
+                   'bounded': bool(k.get('bound')), 'bound': k.get('bound', 'none: loop-free / fully unwound over the full input domain'),
+                   'validates': k.get('validates', ''), 'covers': kr['covers']}
+            kani_records.append(rec)
+            if k.get('bound'):
+                pass  # bounded stand-ins are reported but never counted as proved obligations
+            else:
+                obligations += 1
+            if kr['status'] == 'ok':
+                if not k.get('bound'):
+                    discharged += 1
+                if kr['covers'] and kr['covers'][0] != kr['covers'][1]:
+                    undecided.append('kani %s: cover property unreachable (vacuous harness)' % k['harness'])
+            elif kr['status'] == 'failed':
+                failed.append({'obligation': 'kani::%s::%s' % (k['harness'], '; '.join(kr['failed_desc'])[:120]), 'kind': 'kani', 'fn': k['harness'],
+                               'label': None, 'text': '; '.join(kr['failed_desc']), 'message': 'Kani verification failed', 'rendered': kr['raw'],
+                               'engine': 'kani'})
+            else:
+                undecided.append('kani %s: %s' % (k['harness'], '; '.join(kr['failed_desc'])[:300]))
     # ---- classify failures against the known-findings file
     lines = []
     violations = []
@@ -110,7 +139,7 @@ def check(pid, tier='quick', seed=0):
         src = next((x['source'] for x in fn_records if x['fn'] == v['fn']), None)
         with open(rp, 'w') as fh:
             json.dump({'property': pid, 'failed_obligation': v['obligation'], 'kind': v['kind'], 'function': v['fn'],
-                       'source': src, 'clause_or_site': v['text'], 'verifier': 'verus', 'verifier_message': v['message'],
+                       'source': src, 'clause_or_site': v['text'], 'verifier': v.get('engine', 'verus'), 'verifier_message': v['message'],
                        'verifier_output': v['rendered'], 'counterexample': None,
                        'note': 'Verus gives no counterexample; no-failing-input-found'}, fh, indent=1)
         lines.append('VIOLATION property=%s replay=%s obligation=%s no-failing-input-found' % (pid, rp, v['obligation']))
@@ -132,7 +161,8 @@ def check(pid, tier='quick', seed=0):
             'contract_clauses': clause_count,
             'stubbed_callees': sorted(set(stubs)),
             'engines': {'verus': {'units': units, 'functions_verified': sum(r.verified for r in results.values()),
-                                  'smt_seconds': round(smt_ms / 1000.0, 3)}},
+                                  'smt_seconds': round(smt_ms / 1000.0, 3)},
+                        'kani': {'harnesses': kani_records, 'cbmc_seconds': round(sum(k['seconds'] for k in kani_records), 2)}},
             'extraction': {'from': gen.REPO, 'rewrites_applied': rewrites,
                            'dropped': 'comments, attributes, use items; struct fields widened to pub'},
             'undecided': undecided,
